@@ -154,6 +154,19 @@ class ExprMixin:
                                               or (self.symbolic_globals is not True and nm in self.symbolic_globals)):
                     return nf.sym(f'{m.name}.{nm}')      # the physical constants stay symbols (H, C, K); other numbers are values
                 return self.e_Constant(val, None)
+            if isinstance(val, ast.Call) and (dotted(val.func) or '').split('.')[-1] == 'partial' and \
+                    (dotted(val.func) or '').split('.')[0] in ('functools', 'partial'):
+                # NAME = functools.partial(f, ...) at module level: a callable bound once
+                prev, self.cur = self.cur, _ModuleScope(m, self.cur)
+                try:
+                    from .state import State
+                    v_ = self.eval(val, State())
+                    if isinstance(v_, Const) and isinstance(v_.value, tuple) and v_.value[0] == 'partial':
+                        return v_
+                except Exception:
+                    pass
+                finally:
+                    self.cur = prev
             if _constant_expr(val) or (getattr(self, 'literal_tables', False) and isinstance(val, (ast.Dict, ast.Tuple, ast.List, ast.Set))
                                        and _table_expr(val)):
                 # a module constant derived from literals and other constants (e.g. -2j*pi): its value
